@@ -60,8 +60,8 @@ and, once the quorum is reached, needs asset-binding records that the harness ne
 harness feeds them inputs without valid proofs); the BTC / ripple transaction builders fail on the harness' inputs. -/
 def voteOracles (H : Bytes → Bytes) : Oracles VoteAux VoteInput where
   verify router _ s inp :=
-    if router == VOTE_ROUTER then voteVerify H s.aux inp
-    else if router == RIPPLE_ROUTER then
+    if router = VOTE_ROUTER then voteVerify H s.aux inp
+    else if router = RIPPLE_ROUTER then
       match voteVerify H s.aux inp with
       | .accept p _ => if (inp.src, p.crossChainID) ∈ s.done then .reject "done" else .reject "verify"
       | v => v
